@@ -181,7 +181,7 @@ def handle (j : Json) : Except String Json := do
   | "write" =>
     let d ← decDoc (← getVal j "doc")
     let lib ← decLib (← getVal j "lib")
-    pure (jobj [("dict", encJ (wrap (writeDoc d))), ("ok", jbool (writeOk d)),
+    pure (jobj [("dict", encJ (wrap (writeDoc d))), ("ok", jbool (writeOk d && !writeRefused d)), ("refused", jbool (writeRefused d)),
                 ("wf", jbool (wfDoc lib d)), ("repr", jbool (dictRepr d)),
                 ("layout", jbool (layoutOK (wrap (writeDoc d))))])
   | "read" =>
